@@ -21,7 +21,8 @@ PROPS = {
              'echoed reads, fee charged, state write set, local write set and the final value of every model key are compared.',
         note='Synthetic executors registered from the harness (dapp.Register + types.AllowUserExec); height after every fork '
              '(title "local"); one fee payer with sufficient balance; transient API errors (IsAPIEnvError) not modelled; '
-             'TLC bounds: 2 state + 2 local keys, <= 4 items per block, groups <= 3, <= 3+2 operations per transaction, 2 blocks.',
+             'TLC bounds: exhaustive 1-2 state + 1 local key, 2 items, groups <= 2; simulation 2+2 keys, <= 4 items per block, groups <= 3, '
+             '<= 3+2 operations per transaction, 2 blocks, and a larger alphabet (2 executor names, 4+3 keys, <= 6 items, groups <= 4, 3 blocks).',
     ),
     'C12': dict(
         text='The key-permission rule Allowed(key, executor) (own namespace after removing the own para title; own deposit area '
@@ -38,7 +39,8 @@ PROPS = {
     'C13': dict(
         text='Block execution as a function of (block, prior chain): TLC generates blocks together with a schedule of '
              'process-local activity (side blocks, CheckTx, queries, GC) and re-executions under conditions '
-             '{long-running process, fresh child process} x GOMAXPROCS {1,2,16}, >= 5 repetitions each; a binding table requires '
+             '{long-running process, fresh child process} x GOMAXPROCS {1,2,16}, >= 5 repetitions each, and 5 concurrent '
+             'EventExecTxList requests in the long-running process; a binding table requires '
              'byte-identical digests of receipts (EventExecTxList and PreExecBlock), state write set, state root, local add set '
              '(EventAddBlock) and local del set (EventDelBlock) for every execution of the same term, and equality with the '
              "reference semantics' prediction. Recorded runs are validated by the trace specification Exec_Trace (same "
@@ -201,7 +203,8 @@ def _validate_det(ctx, b, opts):
 
 def _c13(ctx, b, q):
     ctx.rule = ('behaviours = TLC simulation of Exec.tla with Run / Activity steps: every block is executed under several '
-                'conditions (process fresh|long-running x GOMAXPROCS 1|2|16, 5 repetitions each) interleaved with process-local '
+                'conditions (process fresh|long-running x GOMAXPROCS 1|2|16, 5 repetitions each; 5 concurrent requests in the long-running '
+                'process) interleaved with process-local '
                 'activity, then connected; non-trivial = the same (prior chain, block) term executed under >= 2 differing conditions; '
                 'recorded random scenarios (larger blocks, coins / none / user.* transactions, plugins on and off, blocks delivered as peer '
                 'blocks so that the parallel signature verification runs) validated by Exec_Trace')
